@@ -143,7 +143,10 @@ def act(name, wd):
                            stg.periodic_gaussian_t_profile(2.0, 3.0, pulse_offset_width=0.5, seed=6),
                            stg.gaussian_f_profile(4.0))
         s2 = fr.add_constant_signal(fr.get_frequency(9), 0.3, fr.get_intensity(snr=10), 3.0, 'sinc2')
-        return _h(fr.data, n1, n2, s1, s2, fr.noise_mean, fr.noise_std), info
+        # the stand-alone distribution helpers with explicit integer seeds (0 included)
+        d = [stg.gaussian(1.0, 2.0, (3, 2), seed=0), stg.truncated_gaussian(1.0, 2.0, 0.0, (3, 2), seed=0), stg.chi2(5.0, 8, (3, 2), seed=0),
+             stg.gaussian(1.0, 2.0, (3, 2), seed=7), stg.sample_gaussian_params(np.arange(5.0), np.arange(5.0) + 0.5, seed=0)]
+        return _h(fr.data, n1, n2, s1, s2, fr.noise_mean, fr.noise_std, [np.asarray(x) for x in d]), info
     if name in ('F2', 'F3'):
         src = stg.Frame(fchans=12, tchans=4, df=2.0, dt=1.0, fch1=1e9, seed=13, t_start=86400.0 * 5, ascending=(name == 'F3'))
         src.add_noise(3.0)
@@ -446,9 +449,21 @@ def case_seeds(c):
         viol.append({'site': 'Frame', 'failure': 'same_noise_different_seeds', 'detail': 'frames with seeds %d and %d draw identical noise' % (s, s + 1)})
     if not np.array_equal(a, a2):
         viol.append({'site': 'Frame', 'failure': 'different_noise_same_seed', 'detail': 'frames with the same seed %d draw different noise' % s})
+    # two streams with different seeds and TWO noise sources each: no source of one may repeat a source of the other
+    s1 = sv.DataStream(sample_rate=1e3, seed=s); s2 = sv.DataStream(sample_rate=1e3, seed=s + 1)
+    for st in (s1, s2):
+        st.add_noise(0, 1); st.add_noise(0, 1); st.add_noise(0, 1)
+    v1, v2 = np.array(s1.get_samples(1024)), np.array(s2.get_samples(1024))
+    cc = abs(float(np.corrcoef(v1, v2)[0, 1]))
+    if cc > 0.3:       # independent streams: |r| ~ 0.03; one shared source out of three: r = 1/3 .. 2/3
+        viol.append({'site': 'DataStream', 'failure': 'same_noise_different_seeds',
+                     'detail': 'streams with seeds %d and %d and three noise sources each are correlated (|r| = %.3f over 1024 samples)' % (s, s + 1, cc)})
     ant = sv.Antenna(sample_rate=1e3, num_pols=2, seed=s)
     ant.x.add_noise(0, 1); ant.y.add_noise(0, 1)
-    v = np.array(ant.get_samples(16))
+    ant.x.add_noise(0, 1); ant.y.add_noise(0, 1)
+    v = np.array(ant.get_samples(1024))
+    if abs(float(np.corrcoef(v[0][0], v[0][1])[0, 1])) > 0.3:
+        viol.append({'site': 'Antenna', 'failure': 'same_noise_xy', 'detail': 'x and y polarisations (two noise sources each) are correlated (seed %d)' % s})
     if np.array_equal(v[0][0], v[0][1]):
         viol.append({'site': 'Antenna', 'failure': 'same_noise_xy', 'detail': 'x and y polarisations draw identical noise (seed %d)' % s})
     arr = sv.MultiAntennaArray(num_antennas=3, sample_rate=1e3, num_pols=2, delays=[0, 0, 0], seed=s)
